@@ -10,6 +10,7 @@ func C04Members() []func(a *App) {
 		func(a *App) {
 			t := typeT(a)
 			t.Attrs = append(t.Attrs, Attr{Key: "t0", Tag: true})
+			t.Annos = append(t.Annos, Attr{Key: "owners", Val: Arr(Str("a"), Str("b"))}, Attr{Key: "note", Val: Str("n0")})
 			t.Fields = append(t.Fields, &Field{Name: "a", T: prim("int")}, &Field{Name: "b", T: TypeExpr{Prim: "string", Opt: true}}, &Field{Name: "c", T: TypeExpr{RefApp: []string{"Other"}, Ref: []string{"U"}, Wrap: "sequence"}})
 		},
 		// 1: the same type re-opened with a fourth field
@@ -64,6 +65,8 @@ func C04Members() []func(a *App) {
 		func(a *App) {
 			t := typeT(a)
 			t.Fields = append(t.Fields, &Field{Name: "a", T: prim("int")}, &Field{Name: "c", T: TypeExpr{RefApp: []string{"Other"}, Ref: []string{"U"}, Wrap: "sequence"}}, &Field{Name: "b", T: TypeExpr{Prim: "string", Wrap: "set"}})
+			// the array-valued and the string-valued annotation of the first block declared again
+			t.Annos = append(t.Annos, Attr{Key: "owners", Val: Arr(Str("c"))}, Attr{Key: "note", Val: Str("n9")})
 		},
 	}
 }
